@@ -397,6 +397,26 @@ def deltak_case(run, ps, rng, n, L, nthread, poles):
             return run.violation('project-poles-values', dict(pole=int(l), got=bp[ip][:4], expected=exp[:4], **desc))
 
 
+def big_bin_case(run, ps, n, nthread):
+    """More than 2^24 modes in a single (k, mu) bin, binned in the default working precision (float32): counts are mode
+    *counts*, exact whatever the precision of the weighted sums.  One bin holding every mode but k=0: exactly n^3 - 1."""
+    L = 2 * np.pi
+    kedges = np.array([0.5, 10.0 * n])  # in units of k_f = 1
+    muedges = np.array([0.0, 1.0])
+    w = np.ones((n, n, n // 2 + 1), dtype=np.float32)
+    desc = dict(kernel='bin_kmu', n=n, nthread=nthread, bins='one (k, mu) bin holding every mode except k=0', dtype='float32 (default)')
+    run.ev()
+    run.progress(desc)
+    with warnings.catch_warnings():
+        warnings.simplefilter('ignore')
+        wc, cnt, wcp, cntp, wck = ps.bin_kmu(n, L, kedges, muedges, w, poles=np.array([0], dtype=np.int64), nthread=nthread)
+    run.nt(('big-bin', n, nthread))
+    run.count('modes_in_big_bins', n**3 - 1)
+    exp = n**3 - 1
+    if int(np.asarray(cnt).sum()) != exp or int(np.asarray(cntp).sum()) != exp:
+        run.violation('mode-count-inexact-beyond-2^24', dict(count_got=int(np.asarray(cnt).sum()), count_poles_got=int(np.asarray(cntp).sum()), count_expected=exp, **desc))
+
+
 def check(run):
     from abacusnbody.analysis import power_spectrum as ps
 
@@ -428,6 +448,8 @@ def check(run):
         for rep in range(1 if run.quick else 3):
             config_space_case(run, ps, rng, n, [1.0, 250.0][n % 2], [1, 16, 3][n % 3], int(rng.integers(1, 7)), [(), (0, 2), (0, 2, 4)][n % 3])
     accumulator_race_monitor(run, ps, rng)
+    for n, nthread in ([(260, 1), (260, 16)] if run.quick else [(260, 1), (260, 16), (300, 3), (400, 1), (400, 2)]):
+        big_bin_case(run, ps, n, nthread)
     for n in ([5, 8, 12] if run.quick else [3, 5, 8, 9, 12, 16, 24, 31]):
         thread_independence(run, ps, rng, n, 100.0)
     for n in ([4, 7, 10] if run.quick else range(3, 20)):
